@@ -1055,6 +1055,53 @@ theorem model_do_probe_ok [DecidableEq J] (pre : Predef) (env : Env V) (n : Node
       · intro ht
         exact (hyes ht).1
 
+/-! ### the "lists exactly" monitor -/
+
+theorem mem_exportedPairs (pre : Predef) (n : Node J V) (m a : String) :
+    (m, a) ∈ exportedPairs pre n ↔ Exported pre n m a := by
+  unfold exportedPairs Exported
+  simp only [List.mem_flatMap]
+  constructor
+  · rintro ⟨mod, hmod, h⟩
+    by_cases he : mod.exported = true
+    · rw [if_pos he] at h
+      obtain ⟨acc, hacc, hw⟩ := List.mem_filterMap.1 h
+      cases hx : exportName pre acc with
+      | none => rw [hx] at hw; cases hw
+      | some w =>
+        rw [hx] at hw; simp only [Option.map_some, Option.some.injEq, Prod.mk.injEq] at hw
+        exact ⟨mod, acc, hmod, hw.1, he, hacc, by rw [hx, hw.2]⟩
+    · rw [if_neg he] at h; cases h
+  · rintro ⟨mod, acc, hmod, hname, he, hacc, hw⟩
+    refine ⟨mod, hmod, ?_⟩
+    rw [if_pos he]
+    exact List.mem_filterMap.2 ⟨acc, hacc, by rw [hw, hname]; rfl⟩
+
+/-- **listsExactlyB_sound.**  The monitor accepts a report (of the implementation) only if the clause "lists exactly
+the exported modules and accessibles under their wire names" holds of it. -/
+theorem listsExactlyB_sound (pre : Predef) (n : Node J V) (d : List (ModDesc J)) (h : listsExactlyB pre n d = true) :
+    ListsExactly pre n d := by
+  unfold listsExactlyB at h
+  simp only [Bool.and_eq_true, decide_eq_true_eq, List.all_eq_true, List.contains_iff_mem] at h
+  obtain ⟨⟨⟨⟨⟨h1, h2⟩, h3⟩, _⟩, h5⟩, h6⟩ := h
+  refine ⟨?_, h1, ?_⟩
+  · intro m a
+    rw [← mem_exportedPairs]
+    exact ⟨fun hx => h2 _ hx, fun hx => h3 _ hx⟩
+  · intro m
+    have hm : m ∈ exportedModules n ↔ ∃ mod ∈ n, mod.name = m ∧ mod.exported = true := by
+      unfold exportedModules
+      simp only [List.mem_map, List.mem_filter]
+      constructor
+      · rintro ⟨mod, ⟨hmod, he⟩, rfl⟩; exact ⟨mod, hmod, rfl, he⟩
+      · rintro ⟨mod, hmod, rfl, he⟩; exact ⟨mod, ⟨hmod, he⟩, rfl⟩
+    rw [← hm]
+    exact ⟨fun hx => h5 _ hx, fun hx => h6 _ hx⟩
+
+open Frappy.Props.C04.Example in
+/-- non-vacuity: the monitor accepts the model's own report of the example node -/
+example : listsExactlyB pre node (describe pre node) = true := by decide +kernel
+
 /-! ### the probe specification holds of the model (soundness of the monitor clauses for change and read) -/
 
 /-- the error class ReadOnly is the dispatcher's own: neither the datatypes of the node, nor the hooks, nor the drivers
